@@ -1854,6 +1854,66 @@ case_lookup(void)
 	ob_sp_u64(b ? (uint64_t) (b - desc->fields) : (uint64_t) -1);
 }
 
+/* ENUMNAME <name> | ENUMNUM <number>: the enum lookups on a fixed enum descriptor with aliases, laid out as the generator lays
+ * one out (values by number without the aliases, the name index with them).  Prints `E -` (not found),
+ * `E <index in values[]> <value> <name>`, or `E OUTSIDE <value> <name>` when the pointer returned is not an entry of the
+ * descriptor's values[] array (the lookups return descriptor entries, nothing else).  No model counterpart. */
+static const ProtobufCEnumValue drv_enum_values[] = {
+	{ "VALUE_A", "DRV__E__VALUE_A", 0 },
+	{ "VALUE_B", "DRV__E__VALUE_B", 42 },
+	{ "VALUE_D", "DRV__E__VALUE_D", 666 },
+	{ "VALUE_F", "DRV__E__VALUE_F", 1000 },
+};
+static const ProtobufCIntRange drv_enum_ranges[] = { { 0, 0 }, { 42, 1 }, { 666, 2 }, { 1000, 3 }, { 0, 4 } };
+static const ProtobufCEnumValueIndex drv_enum_by_name[] = {
+	{ "VALUE_A", 0 }, { "VALUE_AA", 0 }, { "VALUE_B", 1 }, { "VALUE_C", 1 },
+	{ "VALUE_D", 2 }, { "VALUE_E", 2 }, { "VALUE_F", 3 }, { "VALUE_FF", 3 },
+};
+static const ProtobufCEnumDescriptor drv_enum = {
+	PROTOBUF_C__ENUM_DESCRIPTOR_MAGIC, "drv.E", "E", "Drv__E", "drv",
+	4, drv_enum_values, 8, drv_enum_by_name, 4, drv_enum_ranges, NULL, NULL, NULL, NULL
+};
+
+static void
+put_enum_value(const ProtobufCEnumValue *v)
+{
+	if (!v) {
+		ob_puts("E -");
+		return;
+	}
+	if (v >= drv_enum_values && v < drv_enum_values + 4) {
+		ob_puts("E");
+		ob_sp_u64((uint64_t) (v - drv_enum_values));
+	} else {
+		ob_puts("E OUTSIDE");
+	}
+	ob_sp_u64((uint64_t) (uint32_t) v->value);
+	ob_putc(' ');
+	ob_puts(v->name ? v->name : "(null)");
+}
+
+static void
+case_enumname(void)
+{
+	char *t = tok();
+	char nm[64];
+
+	if (!t)
+		drv_fail("ENUMNAME needs a name");
+	snprintf(nm, sizeof nm, "%s", t);
+	expect_eol();
+	put_enum_value(protobuf_c_enum_descriptor_get_value_by_name(&drv_enum, nm));
+}
+
+static void
+case_enumnum(void)
+{
+	unsigned n = tok_u32("enum number");
+
+	expect_eol();
+	put_enum_value(protobuf_c_enum_descriptor_get_value(&drv_enum, (int) n));
+}
+
 /* SIZES: sizeof_message of every descriptor of the schema (the allocation-level model needs them to print sizes) */
 static void
 case_sizes(void)
@@ -2010,6 +2070,10 @@ run_case(char *line)
 		case_sizes();
 	else if (!strcmp(kw, "LOOKUP"))
 		case_lookup();
+	else if (!strcmp(kw, "ENUMNAME"))
+		case_enumname();
+	else if (!strcmp(kw, "ENUMNUM"))
+		case_enumnum();
 	else if (!strcmp(kw, "CHECK"))
 		case_check();
 	else if (!strcmp(kw, "BUF"))
